@@ -106,7 +106,9 @@ func c13Pair(r *mon.Run, a, b string, na, nb *ljson.Number) {
 	var sa0, sb0 string
 	var fa0, fb0 uint
 	if small {
-		mon.Guard(func() { sa0, sb0, fa0, fb0 = na.String(), nb.String(), na.LengthOfFractionalPart(), nb.LengthOfFractionalPart() })
+		mon.Guard(func() {
+			sa0, sb0, fa0, fb0 = na.String(), nb.String(), na.LengthOfFractionalPart(), nb.LengthOfFractionalPart()
+		})
 	}
 	defer func() {
 		if !small {
@@ -114,7 +116,9 @@ func c13Pair(r *mon.Run, a, b string, na, nb *ljson.Number) {
 		}
 		var sa1, sb1 string
 		var fa1, fb1 uint
-		mon.Guard(func() { sa1, sb1, fa1, fb1 = na.String(), nb.String(), na.LengthOfFractionalPart(), nb.LengthOfFractionalPart() })
+		mon.Guard(func() {
+			sa1, sb1, fa1, fb1 = na.String(), nb.String(), na.LengthOfFractionalPart(), nb.LengthOfFractionalPart()
+		})
 		if sa0 != sa1 || sb0 != sb1 || fa0 != fa1 || fb0 != fb1 {
 			r.Violate("operand-changed", a+" ? "+b, fmt.Sprintf("after comparing %s with %s the operands read %q (fraction length %d) and %q (%d); before: %q (%d) and %q (%d)", a, b, mon.Trunc(sa1, 60), fa1, mon.Trunc(sb1, 60), fb1, mon.Trunc(sa0, 60), fa0, mon.Trunc(sb0, 60), fb0), cs)
 		}
